@@ -24,7 +24,7 @@ void __asan_unpoison_memory_region(void const volatile *addr, size_t size);
 
 sim_state_t S;
 int sim_trace_on = 0;
-sim_knobs_t sim_knobs = { 0, 4, 1024, 0 };
+sim_knobs_t sim_knobs = { 0, 4, 1024, 0, 0 };
 void (*sim_on_close_hook)(int fd, int kind) = NULL;
 void (*sim_on_epoll_ctl_hook)(int epfd, int op, int fd, uint32_t events, int ret, int err) = NULL;
 
@@ -704,6 +704,7 @@ void sim_begin(const plan_t *plan) {
 	S.rt_offset = (int64_t)item_get(&plan->sched, "rtoff", 1700000000LL) * 1000000000LL;
 	S.hash = 0xcbf29ce484222325ULL;
 	sim_knobs.tolerate_bad_close = 0;
+	sim_knobs.realloc_inplace = (int)item_get(&plan->cfg, "inplace", 0);
 	sim_seams_begin();
 	/* faults: attached to ops */
 	for (int i = 0; i < plan->nops; i++) {
